@@ -44,6 +44,41 @@ def slot_ok(em, kind):
     return False
 
 
+def _width(kind):
+    if kind in ("u8", "u16", "u32"):
+        return {"u8": 1, "u16": 2, "u32": 4}[kind]
+    if kind.startswith("raw"):
+        return int(kind[3:])
+    return None
+
+
+def regroup(ems, spec):
+    """Re-chunk compile-time-constant emissions so that their boundaries follow the spec's fixed-width slots: how a run of
+    constant bytes is split over write calls does not change the byte stream (one write of 00 00 00 == write 00, then 00 00)."""
+    out, buf, src, i = [], b"", None, 0
+    for kind, _ in spec:
+        w = _width(kind)
+        if w is None:
+            if buf:
+                break
+            if i >= len(ems):
+                break
+            out.append(ems[i]); i += 1
+            continue
+        if not buf and i < len(ems) and slot_ok(ems[i], kind):
+            out.append(ems[i]); i += 1
+            continue
+        while len(buf) < w and i < len(ems) and ems[i].kind in ("raw", "fixed") and ems[i].const_bytes() is not None:
+            buf += ems[i].const_bytes(); src = ems[i]; i += 1
+        if len(buf) < w:
+            break
+        out.append(wire.Em("raw", value=("const", ("bytes", buf[:w])), bb=src.bb, line=src.line))
+        buf = buf[w:]
+    if buf:
+        out.append(wire.Em("raw", value=("const", ("bytes", buf)), bb=src.bb, line=src.line))
+    return out + list(ems[i:])
+
+
 def item_field(t, name):
     """is t `(<loop item>).<name>` possibly through as_bytes()/bits()/cast?"""
     t = T.peel(t, extra_rx=r"(String::as_bytes|ColumnFlags>::bits|::bits)$", casts=True)
@@ -69,7 +104,7 @@ def run(ctx):
         """one column definition = the ColumnDefinition41 slots fed from the iterated Column, then exactly one packet end"""
         if not group or group[-1].kind != "end_packet" or any(e.kind == "end_packet" for e in group[:-1]):
             return False, "a column definition must be exactly one packet"
-        slots = group[:-1]
+        slots = regroup(group[:-1], SPEC.COLDEF41)
         if len(slots) != len(SPEC.COLDEF41):
             return False, "expected %d slots, found %d" % (len(SPEC.COLDEF41), len(slots))
         for (kind, meaning), em in zip(SPEC.COLDEF41, slots):
@@ -112,7 +147,7 @@ def run(ctx):
             ok = len(ends) == 1 and ends[0] == len(body_ems) - 1
             ctx.ob("C09.coldef-layout", ok, "a column definition must be exactly one packet (packet ends at %s of %d emissions)" % (ends, len(body_ems)),
                    fn=wcd.path, construct="packet-end", where=wcd.where(p.blocks[-1]))
-            slots = body_ems[:-1] if ok else body_ems
+            slots = regroup(body_ems[:-1] if ok else body_ems, SPEC.COLDEF41)
             extra = slots[len(SPEC.COLDEF41):]
             slots = slots[:len(SPEC.COLDEF41)]
             ok_all = len(slots) == len(SPEC.COLDEF41)
@@ -231,6 +266,8 @@ def run(ctx):
     for p, cls, ems in seqs:
         desc = [e.short()[:60] for e in ems]
         head = [e for e in ems if e.kind != "call"]
+        if head and head[-1].kind == "end_packet":
+            head = regroup(head[:-1], SPEC.PREPARE_OK) + [head[-1]]
         calls = [e for e in ems if e.kind == "call"]
         ok = len(head) == 7 and head[6].kind == "end_packet" and all(slot_ok(e, k) for e, (k, _) in zip(head[:6], SPEC.PREPARE_OK)) and len(calls) == 2
         why = "sequence %s" % desc
